@@ -18,7 +18,7 @@ def mk_obj(st, var, cls, fields):
     o = Obj(cls, var)
     st.env[var] = o
     for k, v in fields.items():
-        if isinstance(v, str):
+        if isinstance(v, str) and v in ("int", "real", "bool", "str"):
             v = sym(f"{var}.{k}", v)
         st.fields[(var, k)] = v
     return o
